@@ -124,6 +124,7 @@ package main
 //@   at effect disk-write assert [C07] written-bytes-parse: Parses(string(arg1))
 //@   at effect disk-write assert [C12,C14,C16] written-bytes-are-the-pipeline-output: arg0 == filename && string(arg1) == ite(opts.SkipImportProcessing, fmtNode(f), impProc(filename, fmtNode(f)))
 //@   at effect disk-write assert [C18] generated-skipped: !(opts.SkipGenerated && ret("main.checkGeneratedCode", 0))
+//@   at call main.findFiles assert [C15] relative-arguments-are-resolved-against-the-working-directory-as-reported: arg0 == ret("funcval:main.mainCmd.Getwd", 0) && arg1 == opts.Args.Patterns
 //@   at call main.loadPatches assert [C12,C14] one-file-set-for-patches-and-targets: arg0 == ret("go/token.NewFileSet", 0)
 //@   at call main.newPatchRunner assert [C12,C14] one-file-set-for-patches-and-targets: arg0 == ret("go/token.NewFileSet", 0)
 //@   at call go/parser.ParseFile#0 assert [C12,C14] the-file-is-parsed-into-the-file-set-the-patches-were-compiled-with: arg0 == ret("go/token.NewFileSet", 0)
